@@ -122,9 +122,78 @@ theorem runFuelPick_spec (inp : Input) (file : List α) (chosen : α → Bool) (
     exact this
   | httpScenario | grpcScenario | genericJson => simp [hkd, Kind.hasFilter] at hk
 
+/-! ## scenario weights -/
+
+theorem gcdList_dvd (l : List Nat) : ∀ x ∈ l, gcdList l ∣ x := by
+  induction l with
+  | nil => intro x hx; cases hx
+  | cons a l ih =>
+    intro x hx
+    simp only [gcdList, List.foldr_cons] at *
+    rcases List.mem_cons.mp hx with rfl | h
+    · exact Nat.gcd_dvd_left _ _
+    · exact Nat.dvd_trans (Nat.gcd_dvd_right _ _) (ih x h)
+
+theorem normWeights_pos (ws : List Nat) : ∀ x ∈ normWeights ws, 0 < x := by
+  intro x hx
+  simp only [normWeights, List.mem_map] at hx
+  obtain ⟨w, _, rfl⟩ := hx
+  split <;> omega
+
+/-- every scenario occurs at least once in a pass -/
+theorem spreadCounts_pos (ws : List Nat) : ∀ c ∈ spreadCounts ws, 0 < c := by
+  intro c hc
+  simp only [spreadCounts, List.mem_map] at hc
+  obtain ⟨w, hw, rfl⟩ := hc
+  have hpos := normWeights_pos ws w hw
+  have hd := gcdList_dvd (normWeights ws) w hw
+  have hg : 0 < gcdList (normWeights ws) := Nat.pos_of_dvd_of_pos hd hpos
+  exact Nat.div_pos (Nat.le_of_dvd hpos hd) hg
+
+theorem length_spreadFrom (i : Nat) (cs : List Nat) : (spreadFrom i cs).length = cs.sum := by
+  induction cs generalizing i with
+  | nil => rfl
+  | cons c cs ih => simp [spreadFrom, ih]
+
+theorem length_le_sum_of_pos (cs : List Nat) (h : ∀ c ∈ cs, 0 < c) : cs.length ≤ cs.sum := by
+  induction cs with
+  | nil => simp
+  | cons c cs ih =>
+    have h1 := h c (List.mem_cons_self)
+    have h2 := ih (fun x hx => h x (List.mem_cons_of_mem _ hx))
+    simp only [List.length_cons, List.sum_cons]
+    omega
+
+/-- a pass has at least as many entries as the file has scenarios; its length is the sum of the counts -/
+theorem length_spread (ws : List Nat) : (spread ws).length = (spreadCounts ws).sum ∧ ws.length ≤ (spread ws).length := by
+  have h1 : (spread ws).length = (spreadCounts ws).sum := length_spreadFrom 0 _
+  refine ⟨h1, ?_⟩
+  rw [h1]
+  have := length_le_sum_of_pos (spreadCounts ws) (spreadCounts_pos ws)
+  simpa [spreadCounts, normWeights] using this
+
+/-- how often scenario `j` occurs in `spreadFrom i cs` -/
+theorem count_spreadFrom (i : Nat) (cs : List Nat) (j : Nat) :
+    (spreadFrom i cs).count j = if i ≤ j then cs.getD (j - i) 0 else 0 := by
+  induction cs generalizing i with
+  | nil => simp [spreadFrom]
+  | cons c cs ih =>
+    simp only [spreadFrom, List.count_append, List.count_replicate, ih]
+    by_cases h1 : i ≤ j
+    · by_cases h2 : i = j
+      · subst h2
+        have h3 : ¬ i + 1 ≤ i := by omega
+        simp [h3]
+      · have h3 : i + 1 ≤ j := by omega
+        have h4 : j - i = (j - (i + 1)) + 1 := by omega
+        simp [h1, h2, h3, h4]
+    · have h3 : ¬ i + 1 ≤ j := by omega
+      have h2 : ¬ i = j := by omega
+      simp [h1, h2, h3]
+
 /-! ## data sources -/
 
-theorem seekable_iff (k : SrcKind) : k.seekable = true ↔ k ≠ .reader ∧ k ≠ .buffer := by
+theorem seekable_iff (k : SrcKind) : k.seekable = true ↔ k ≠ .readCloser ∧ k ≠ .reader ∧ k ≠ .buffer := by
   cases k <;> simp [SrcKind.seekable, opensOf, SrcKind.rewindable]
 
 theorem runSrc_seekable (k : SrcKind) (hk : k.seekable = true) (inp : Input) (hg : inp.kind = .genericJson) (n : Nat) :
@@ -180,5 +249,66 @@ theorem replayStepU_eq (passes limit length ammoNum : UInt64) (c : Bool)
           simp only [UInt64.toNat_one]
           exact Nat.mod_eq_of_lt hinc
         rw [this]
+
+/-! ## the streaming decoders over machine integers -/
+
+theorem u64_succ_toNat (a : UInt64) (h : a.toNat + 1 < 2 ^ 64) : (a + 1).toNat = a.toNat + 1 := by
+  simp only [UInt64.toNat_add, UInt64.toNat_one]
+  exact Nat.mod_eq_of_lt h
+
+theorem u64_eq_zero (a : UInt64) : a = 0 ↔ a.toNat = 0 := by
+  constructor
+  · intro h; subst h; rfl
+  · intro h; exact UInt64.toNat_inj.mp (by simpa using h)
+
+/-- uri / uripost / raw: one round of `Scan` over Go's `uint` counters is the round over `Nat`, for every 64-bit `passes` and
+all counters that have not themselves wrapped -/
+theorem roundEofU_eq (passes ammoNum passNum : UInt64) (c : Bool) (rd : Rd)
+    (ha : ammoNum.toNat + 1 < 2 ^ 64) (hp : passNum.toNat + 1 < 2 ^ 64) :
+    roundEofU passes c rd ammoNum passNum = roundEof passes.toNat c rd ammoNum.toNat passNum.toNat := by
+  unfold roundEofU roundEof
+  cases c with
+  | true => simp
+  | false =>
+    simp only [Bool.false_eq_true, if_false]
+    cases rd with
+    | entry => simp [u64_succ_toNat _ ha]
+    | skip => rfl
+    | bad => rfl
+    | eof =>
+      simp only
+      have hq : (passes ≠ 0 ∧ passNum + 1 ≥ passes) ↔ (passes.toNat ≠ 0 ∧ passes.toNat ≤ passNum.toNat + 1) := by
+        rw [u64_ne_zero, ge_iff_le, UInt64.le_iff_toNat_le, u64_succ_toNat _ hp]
+      by_cases h1 : passes ≠ 0 ∧ passNum + 1 ≥ passes
+      · rw [if_pos h1, if_pos (hq.mp h1), u64_succ_toNat _ hp]
+      · rw [if_neg h1, if_neg (fun h => h1 (hq.mpr h))]
+        by_cases h2 : ammoNum = 0
+        · rw [if_pos h2, if_pos ((u64_eq_zero _).mp h2), u64_succ_toNat _ hp]
+        · rw [if_neg h2, if_neg (fun h => h2 ((u64_eq_zero _).mpr h)), u64_succ_toNat _ hp]
+
+/-- jsonline: the same -/
+theorem roundTopU_eq (passes ammoNum passNum : UInt64) (c : Bool) (rd : Rd)
+    (ha : ammoNum.toNat + 1 < 2 ^ 64) (hp : passNum.toNat + 1 < 2 ^ 64) :
+    roundTopU passes c rd ammoNum passNum = roundTop passes.toNat c rd ammoNum.toNat passNum.toNat := by
+  unfold roundTopU roundTop
+  have hq : (passes ≠ 0 ∧ passNum ≥ passes) ↔ (passes.toNat ≠ 0 ∧ passes.toNat ≤ passNum.toNat) := by
+    rw [u64_ne_zero, ge_iff_le, UInt64.le_iff_toNat_le]
+  by_cases h1 : passes ≠ 0 ∧ passNum ≥ passes
+  · rw [if_pos h1, if_pos (hq.mp h1)]
+  · rw [if_neg h1, if_neg (fun h => h1 (hq.mpr h))]
+    cases rd with
+    | entry => simp [u64_succ_toNat _ ha]
+    | skip => rfl
+    | bad => rfl
+    | eof =>
+      simp only
+      by_cases h2 : ammoNum = 0
+      · rw [if_pos h2, if_pos ((u64_eq_zero _).mp h2)]
+      · rw [if_neg h2, if_neg (fun h => h2 ((u64_eq_zero _).mpr h)), u64_succ_toNat _ hp]
+
+theorem limitReachedU_eq (limit ammoNum : UInt64) :
+    limitReachedU limit ammoNum = decide (limit.toNat ≠ 0 ∧ limit.toNat ≤ ammoNum.toNat) := by
+  unfold limitReachedU
+  rw [decide_eq_decide, u64_ne_zero, ge_iff_le, UInt64.le_iff_toNat_le]
 
 end Pandora.Proofs.C08
